@@ -439,6 +439,32 @@ def run(facts, cg):
             if x not in ('false', '0'):
                 finding('R-FETCHLIST', b.q, 'kept-without-lookup', 'the filter over the chunk descriptors can keep a descriptor without the index of wanted chunks holding it (%s): '
                         'chunks that are not missing are fetched as well' % x)
+    # the same as a loop: `for cd in descriptors { if !wanted.contains(..) { continue } list.push(..) }` - every push of a range sits
+    # behind the "holds it" edge of the lookup
+    from .r_accept import deciding_switch
+    for b in facts.bodies.values():
+        if b.generated or not b.id.startswith('bitar::archive::') or b.raw['kind'] == 'Closure' and not b.raw.get('coroutine'):
+            continue
+        looks = [(bi, t) for bi, t in b.calls() if 'q' in t['callee'] and callee_q(t).endswith('ChunkIndex::contains') and t.get('t') is not None and not t['dest']['p']]
+        pushes = [(bi, t) for bi, t in b.calls() if 'q' in t['callee'] and callee_q(t).endswith(('Vec::push', 'Vec::extend', 'Vec::insert')) and t['args'] and
+                  t['args'][0]['k'] in ('copy', 'move') and 'ChunkOffset' in b.lty(t['args'][0]['pl']['l']).get('s', '')]
+        if not looks or not pushes:
+            continue
+        n_flt += 1
+        dom = b.dominators()
+        held = []
+        for bi, t in looks:
+            dsw = deciding_switch(b, t['t'], t['dest']['l'])
+            if dsw is None:
+                continue
+            sw, flipped = dsw
+            t_edge, f_edge = sw['otherwise'], dict(zip(sw['vals'], sw['targets'])).get(0)
+            held.append(f_edge if flipped else t_edge)
+        bad = [t['loc'] for bi, t in pushes if not any(h is not None and (h == bi or h in dom.get(bi, ())) for h in held)]
+        instances.append({'rule': 'R-FETCHLIST(filter)', 'function': b.q, 'pushes_not_behind_the_lookup': bad})
+        for loc in bad:
+            finding('R-FETCHLIST', b.q, 'kept-without-lookup', 'a range is put on the fetch list at %s on a path on which the index of wanted chunks was not found to hold '
+                    'the chunk: chunks that are not missing are fetched as well' % loc)
     if n_flt < 1 and n_fl >= 1:
         finding('R-FETCHLIST', '-', 'floor-filter', 'no closure that filters the descriptors by ChunkIndex::contains was found (cannot decide)')
     if n_fl < 1:
